@@ -344,43 +344,53 @@ def subset_rules(cfg, R, B, X):
 def anchor_rule_rule(cfg, R):
     """The anchor rule added in front of a policy stands for "standard time since ever": it is a copy of an existing rule
     with the dates and SAVE overwritten, so every field that is not overwritten (LETTER above all) is inherited.  The
-    rule it copies therefore has to be a SAVE == 0 rule: the store of the candidate must be control dependent on
-    rule['deltaSeconds'] == 0 (or the copy must overwrite 'letter')."""
+    function is interpreted (E-SEQ) on policies of two and three rules, in every order, with SAVE 0 and SAVE 1:00 rules
+    carrying different letters: the anchor must have SAVE 0 and the letter of a SAVE == 0 rule."""
+    from .aeval import AEval, AObj, Raised
+    from itertools import product
     m = py.load(cfg, 'tools/tzdb/transformer.py')
     R.rule('E', 'the anchor rule is copied from a rule with SAVE == 0 (its LETTER is the standard-time letter)', floor=1)
     f = m.fn('Transformer._get_anchor_rule')
     c = 'tzdb.transformer.Transformer._get_anchor_rule:candidate'
-    stores = []
-    for x in ast.walk(f.node):
-        if isinstance(x, ast.Assign) and isinstance(x.targets[0], ast.Subscript) and ast.unparse(x.targets[0].slice) == "'rule'" \
-                and isinstance(x.value, ast.Name):
-            stores.append(x)
-    overwrites_letter = any(isinstance(x, ast.Assign) and isinstance(x.targets[0], ast.Subscript) and ast.unparse(x.targets[0].slice) == "'letter'"
-                            for x in ast.walk(f.node))
-    if not stores:
-        raise AnalysisError('%s: no store of the anchor candidate found (anchor moved)' % f.loc)
-    parents = {}
-    for p in ast.walk(f.node):
-        for ch in ast.iter_child_nodes(p):
-            parents[ch] = p
-    for st in stores:
-        R.instance('E', c, m.loc(st))
-        guarded = False
-        cur = st
-        while cur in parents:
-            par = parents[cur]
-            if isinstance(par, ast.If) and cur in par.body:
-                for y in ast.walk(par.test):
-                    if isinstance(y, ast.Compare) and len(y.ops) == 1 and isinstance(y.ops[0], ast.Eq) and 'deltaSeconds' in ast.unparse(y.left) \
-                            and isinstance(y.comparators[0], ast.Constant) and y.comparators[0].value == 0:
-                        # the comparison must be a conjunct of the test, not an alternative
-                        guarded = not any(isinstance(z, ast.BoolOp) and isinstance(z.op, ast.Or) and any(y is w or y in ast.walk(w) for w in z.values)
-                                          for z in ast.walk(par.test))
-            cur = par
-        if not guarded and not overwrites_letter:
-            R.violation('E', c, m.loc(st), "the anchor candidate is taken from any rule, not only from rules with rule['deltaSeconds'] == 0, and the copy keeps that rule's "
-                        "LETTER: a policy whose earliest rule is a DST rule gets an anchor with the DST letter, so the zone shows the summer abbreviation "
-                        "with the standard offset until its first real transition")
+    R.instance('E', c, f.loc)
+    quiet = {k: (lambda ev, recv, args: None) for k in ('logging.info', 'info')}
+    n = 0
+    bad = None
+    dates = [(2005, 3, 27), (2005, 10, 30), (2006, 3, 26)]
+    for k in (2, 3):
+        for order in product(range(len(dates)), repeat=k):
+            if len(set(order)) != k:
+                continue
+            for saves in product((0, 3600), repeat=k):
+                if 0 not in saves:
+                    continue        # every policy has a standard-time rule
+                rules = []
+                for idx, sv in zip(order, saves):
+                    y, mo, d = dates[idx]
+                    rules.append({'fromYear': y, 'toYear': 9999, 'inMonth': mo, 'onDay': str(d), 'onDayOfWeek': 0, 'onDayOfMonth': d,
+                                  'atTime': '2:00', 'atTimeSuffix': 'w', 'atSeconds': 7200, 'atSecondsTruncated': 7200,
+                                  'deltaOffset': '1:00' if sv else '0', 'deltaSeconds': sv, 'deltaSecondsTruncated': sv,
+                                  'letter': 'D' if sv else 'S', 'rawLine': 'Rule P ...', 'used': True})
+                me = AObj({'start_year': 2000, 'until_year': 2050, 'scope': 'extended'}, oid='self', cls='Transformer')
+                try:
+                    a = AEval(module=m, intrinsics=quiet).call_function('Transformer._get_anchor_rule', [rules], recv=me)
+                except Raised as r_:
+                    raise AnalysisError('%s: interpretation raised %s' % (f.loc, r_.what))
+                except (KeyError, IndexError, TypeError, AttributeError) as x_:
+                    raise AnalysisError('%s: the abstraction of a rule record lacks %r' % (f.loc, x_))
+                n += 1
+                if not isinstance(a, dict) or 'letter' not in a or 'deltaSeconds' not in a:
+                    raise AnalysisError('%s: _get_anchor_rule does not return a rule record' % f.loc)
+                if (a['letter'] != 'S' or a['deltaSeconds'] != 0) and bad is None:
+                    bad = (rules, a)
+    R.analysed['E interpreted policies'] = n
+    if bad is not None:
+        rules, a = bad
+        R.violation('E', c, f.loc, "policy %s: the anchor has LETTER %r and SAVE %r: it is not taken from a rule with rule['deltaSeconds'] == 0 "
+                    "(or the copy keeps that rule's LETTER): a policy whose earliest rule is a DST rule gets an anchor with the DST letter, so the zone shows the "
+                    "summer abbreviation with the standard offset until its first real transition"
+                    % (['%d-%02d-%02d SAVE %d LETTER %s' % (r['fromYear'], r['inMonth'], r['onDayOfMonth'], r['deltaSeconds'], r['letter']) for r in rules],
+                       a['letter'], a['deltaSeconds']))
 
 
 def _alignment_witness(T, yparam, fname, a_eff, want, L):
@@ -435,6 +445,84 @@ def _alignment_witness(T, yparam, fname, a_eff, want, L):
     return out
 
 
+def prior_rule_eval(R, lib, flp):
+    """findLatestPriorRule(policy, A) is interpreted (E-SEQ, typed; the brokers and compareRulesBeforeYear /
+    priorYearOfRule through their bodies) on abstract policies of zero to three rules.  Read off: whether a rule whose
+    FROM year equals A counts as "before A" (-> strict comparator or not; a rule from A-1 must count, one from A+1 must
+    not), and that among the rules that count the result is one that maximises (min(TO year, A-1), month) - the latest
+    transition before the year A.  Returns strict (True/False) or None when the comparator is neither."""
+    from itertools import product
+    from .aeval import AEval, AObj, CxxModule, Raised, Ref, cxx_object
+    mod = CxxModule(lib, ['ace_time::'])
+    NS = 'ace_time::basic::'
+
+    def run(rules, A):
+        objs = []
+        for (fr, to, mo) in rules:
+            o = cxx_object(lib, NS + 'ZoneRule')
+            o.attrs.update({'fromYearTiny': fr, 'toYearTiny': to, 'inMonth': mo, 'onDayOfWeek': 0, 'onDayOfMonth': 1})
+            objs.append(o)
+        pol = cxx_object(lib, NS + 'ZonePolicy')
+        pol.attrs.update({'rules': objs, 'numRules': len(objs), 'numLetters': 0})
+        br = cxx_object(lib, NS + 'ZonePolicyBroker')
+        br.attrs['mZonePolicy'] = pol
+        try:
+            ev = AEval(module=mod, typed=True, max_steps=20000)
+            out = ev.call_function(flp.name, [br, A], chosen=CxxModule._Fn(flp))
+        except IndexError:
+            return 'reads outside the rules'
+        except Raised as r_:
+            return 'raises %s' % r_.what
+        except AnalysisError as ex:
+            if 'step budget' in str(ex) or 'does not terminate' in str(ex):
+                return 'does not terminate'
+            raise
+        if not isinstance(out, AObj) or 'mZoneRule' not in out.attrs:
+            raise AnalysisError('%s: the result is not a ZoneRuleBroker' % flp.loc)
+        z = out.attrs['mZoneRule']
+        if z is None:
+            return None
+        if isinstance(z, Ref):
+            return z.key
+        for idx, o in enumerate(objs):
+            if o is z:
+                return idx
+        raise AnalysisError('%s: the result does not designate a rule of the policy' % flp.loc)
+    A = 5
+    cc = 'BasicZoneProcessor::findLatestPriorRule:comparator'
+    below, at, above = run([(A - 1, 20, 3)], A), run([(A, 20, 3)], A), run([(A + 1, 20, 3)], A)
+    strict = None if (below != 0 or above is not None or at not in (0, None)) else (at is None)
+    R.instance('D', cc, flp.loc, 'rule.fromYearTiny() %s year' % ('?' if strict is None else '<' if strict else '<='))
+    if strict is None:
+        R.violation('D', cc, flp.loc, 'with year %d: a rule from %d gives %r, from %d gives %r, from %d gives %r: the rules effective before the given year are not '
+                    'selected by FROM year < (or <=) year' % (A, A - 1, below, A, at, A + 1, above))
+        return None
+    if run([], A) is not None:
+        R.violation('D', cc, flp.loc, 'an empty policy yields a rule')
+    cr = 'BasicZoneProcessor::findLatestPriorRule:ranking'
+    n = 0
+    bad = None
+    cands = [(fr, to, mo) for fr in (A - 3, A - 2, A - 1) for to in range(fr, A + 2) for mo in (3, 10)]
+    for k_ in ((2, 3) if R.cfg.tier == 'thorough' else (2,)):
+        for rules in product(cands, repeat=k_):
+            if k_ == 3 and (rules[0][2] != 3 or rules[1][0] != A - 2):
+                continue          # a slice of the triples keeps the count moderate
+            key = [(to if to < A else A - 1, mo) for fr, to, mo in rules]
+            best = max(key)
+            got = run(list(rules), A)
+            n += 1
+            if not isinstance(got, int) or key[got] != best:
+                bad = bad or (rules, got, key.index(best))
+    R.instance('D', cr, flp.loc, '%d interpreted policies' % n)
+    R.analysed['D interpreted policies'] = n
+    if bad is not None:
+        rules, got, want = bad
+        R.violation('D', cr, flp.loc, 'policy %s, year %d: the result is %s, but the latest transition before the year comes from rule #%d (a rule that expires in or after the '
+                    'queried year ranks as year-1; otherwise an expiring rule wins over a later-month rule that is still running)'
+                    % (['FROM %d TO %d month %d' % r for r in rules], A, ('rule #%d' % got) if isinstance(got, int) else got, want))
+    return strict
+
+
 def year_alignment_rule(R, lib, T):
     """Each transition the basic processor stores is (era of year L, rule in effect at the start of what the
     transition stands for).  With `latest = findLatestPriorRule(policy, A)` selecting rules whose FROM year is
@@ -447,47 +535,9 @@ def year_alignment_rule(R, lib, T):
     if not flp:
         raise AnalysisError('anchor vanished: BasicZoneProcessor::findLatestPriorRule')
     flp = flp[0]
-    yparam = flp.params[1][0]
-    strict = None
-    for e in (x for s in walk_stmts(flp.body) for e0 in stmt_exprs(s) for x in walk_expr(e0)):
-        if e.k == 'bin' and e.a[0] in ('<', '<=', '>', '>='):
-            l, r, op = e.a[1], e.a[2], e.a[0]
-            while l.k == 'cast':
-                l = l.a[2]
-            while r.k == 'cast':
-                r = r.a[2]
-            if r.k == 'call' and r.a[0].endswith('::fromYearTiny') and l.k == 'var' and l.a[0] == yparam:
-                l, r, op = r, l, {'<': '>', '>': '<', '<=': '>=', '>=': '<='}[op]
-            if l.k == 'call' and l.a[0].endswith('::fromYearTiny') and r.k == 'var' and r.a[0] == yparam and op in ('<', '<='):
-                strict = op == '<'
-    R.instance('D', 'BasicZoneProcessor::findLatestPriorRule:comparator', flp.loc, 'rule.fromYearTiny() %s %s' % ('<' if strict else '<=', yparam))
+    strict = prior_rule_eval(R, lib, flp)
     if strict is None:
-        R.violation('D', 'BasicZoneProcessor::findLatestPriorRule:comparator', flp.loc, 'no test "rule.fromYearTiny() < %s" selects the rules effective before the given year' % yparam)
         return
-    # priorYearOfRule(year, rule) ranks the rules that are effective before `year`: whatever it returns must be a year
-    # strictly before `year` on every path (otherwise an expiring rule outranks a later-month rule that is still running)
-    from .gnf import SymExec, cmp_formula, valuations
-    pf = lib.fns(BASIC + '::priorYearOfRule')
-    if not pf:
-        raise AnalysisError('anchor vanished: BasicZoneProcessor::priorYearOfRule')
-    pf = pf[0]
-    summ = SymExec(fold_global=lib.global_value).run(pf.name, pf.body, {})
-    ysym = Poly.atom(('sym', pf.params[0][0]))
-    cpr = 'BasicZoneProcessor::priorYearOfRule:result-before-year'
-    R.instance('D', cpr, pf.loc, '%d paths' % len(summ.paths))
-    for g_, kind_, res_, _eff in summ.paths:
-        if kind_ != 'return' or res_ is None:
-            R.violation('D', cpr, pf.loc, 'a path does not return a year')
-            continue
-        target = cmp_formula('<', Poly(dict(res_)), ysym)
-        bad_val = None
-        for val in valuations([g_, target]):
-            if val.eval(g_) and not val.eval(target):
-                bad_val = val.describe()
-                break
-        if bad_val is not None:
-            R.violation('D', cpr, pf.loc, 'on the path taken when %s the function returns %r, which is not before %s: a rule that expires in the queried year is ranked as '
-                        'if it were still the latest prior, and wins over a later-month rule that is still running' % (bad_val, Poly(dict(res_)), pf.params[0][0]))
     n_sites = 0
     for fname in ('addTransitionPriorToYear', 'addTransitionsForYear', 'addTransitionAfterYear'):
         fs = lib.fns(BASIC + '::' + fname)
@@ -601,7 +651,7 @@ SELFTEST = [
          find='      basic::ZoneRuleBroker latest = findLatestPriorRule(\n          eraAfter.zonePolicy(), yearTiny + 1);', replace='      basic::ZoneRuleBroker latest = findLatestPriorRule(\n          eraAfter.zonePolicy(), yearTiny);',
          expect='silent'),
     dict(id='prior-year-of-expiring-rule', file='src/ace_time/BasicZoneProcessor.h', find='      if (rule.toYearTiny() < yearTiny) {\n        return rule.toYearTiny();',
-         replace='      if (rule.toYearTiny() <= yearTiny) {\n        return rule.toYearTiny();', rule='D', construct='priorYearOfRule'),
+         replace='      if (rule.toYearTiny() <= yearTiny) {\n        return rule.toYearTiny();', rule='D', construct=':ranking'),
     dict(id='anchor-from-any-rule', file='tools/tzdb/transformer.py',
          find="            if (rule['deltaSeconds'] == 0\n                    and rule_date < anchor_info['earliestDate']):", replace="            if rule_date < anchor_info['earliestDate']:", rule='E'),
     dict(id='anchor-guard-nested-silent', file='tools/tzdb/transformer.py',
